@@ -146,12 +146,22 @@ impl<'a> PrettyPrinter<'a> {
         ctx: Context,
         math_attach: MathAttach<'a>,
     ) -> ArenaDoc<'a> {
+        // An underscore directly after a hashed identifier would become part of it: `#x _ y` is not `#x_y`.
+        let mut after_hashed_expr = false;
         self.convert_flow_like(ctx, math_attach.to_untyped(), |ctx, node| {
-            if let Some(expr) = node.cast::<Expr>() {
-                FlowItem::tight(self.convert_expr(ctx, expr))
+            if node.kind() == SyntaxKind::Underscore && after_hashed_expr {
+                after_hashed_expr = false;
+                FlowItem::new(self.convert_trivia_untyped(node), true, false)
+            } else if let Some(expr) = node.cast::<Expr>() {
+                // The expression after a hash is converted in code mode.
+                after_hashed_expr = ctx.mode == Mode::Code
+                    && (node.clone().into_text()).ends_with(typst_syntax::is_id_continue);
+                // The blank is only printed before an item that asks for one, i.e. the underscore.
+                FlowItem::new(self.convert_expr(ctx, expr), false, after_hashed_expr)
             } else if node.kind() == SyntaxKind::Space {
                 FlowItem::none()
             } else {
+                after_hashed_expr = false;
                 FlowItem::tight(self.convert_trivia_untyped(node))
             }
         })
